@@ -14,6 +14,18 @@ using namespace mpt;
 
 #include "drv_ident_common.h"
 
+/* the name operand as the callee gets it: with an explicit length it is a slice of the longer operand buffer
+ * (followed by the operand's remaining bytes); without, a block of exactly its size (no terminator behind it, so
+ * ASan sees any read past the announced length); for len = -1 the terminated buffer */
+static uint8_t *name_block(uint8_t *dat, size_t dlen, int explicit_len, long len, uint8_t **tofree)
+{
+	*tofree = 0;
+	if (explicit_len || len < 0) return dat;
+	*tofree = (uint8_t *) __real_malloc(dlen ? dlen : 1);
+	memcpy(*tofree, dat, dlen);
+	return *tofree;
+}
+
 int main(void)
 {
 	static char line[1 << 20];
@@ -54,9 +66,11 @@ int main(void)
 			len = (long) dlen;
 			if (drv_nw == 5 && parse_len(drv_w[4], &len)) { __real_free(dat); puts("bad-op"); continue; }
 			if ((isnull && (drv_nw != 5 || len < 0)) || (!isnull && len > (long) dlen)) { __real_free(dat); puts("bad-op"); continue; }
+			uint8_t *blk = 0, *nm = isnull ? 0 : name_block(dat, dlen, drv_nw == 5, len, &blk);
 			in_lib = (int) k;
-			bool r = slots[k].id->set_name(isnull ? 0 : (char *) dat, (int) len);
+			bool r = slots[k].id->set_name((char *) nm, (int) len);
 			in_lib = -1;
+			__real_free(blk);
 			__real_free(dat);
 			result(r ? "ok" : "refused");
 		}
@@ -74,7 +88,9 @@ int main(void)
 			len = (long) dlen;
 			if (drv_nw == 5 && parse_len(drv_w[4], &len)) { __real_free(dat); puts("bad-op"); continue; }
 			if ((isnull && drv_nw != 5) || (!isnull && len > (long) dlen)) { __real_free(dat); puts("bad-op"); continue; }
-			bool r = slots[k].id->equal(isnull ? 0 : (char *) dat, (int) len);
+			uint8_t *blk = 0, *nm = isnull ? 0 : name_block(dat, dlen, drv_nw == 5, len, &blk);
+			bool r = slots[k].id->equal((char *) nm, (int) len);
+			__real_free(blk);
 			__real_free(dat);
 			result(r ? "eq" : "ne");
 		}
